@@ -326,6 +326,10 @@ def compose_cases(draw):
             region = lst[i:j]
             if any(y["t"] in ("block", "include") for y in pgstrat.walk(region)):
                 continue
+            if all(y["t"] == "text" and not pg._no_comments(y["s"]).strip() for y in region):
+                # "only whitespace between {% component %} and {% endcomponent %} is no content" is a rule about the
+                # source text of the body; wrapping that whitespace in a tag of any kind makes it content
+                continue
             if any(y["t"] == "var" and re.fullmatch(r"f\d+", y["n"]) for y in pgstrat.walk(region)):
                 # a region that prints the fill's default alias can re-enter ITSELF (slot default -> nested slot -> the
                 # same fill); Django's {% block %} is not re-entrant by design (BlockContext pop/push), so such a
